@@ -126,6 +126,7 @@ func (v *PacketDslVisitorImpl) VisitPacketDefinition(ctx *gen.PacketDefinitionCo
 	// Iterate over all fieldDefinition children
 	var fields []*model.Field
 	var fieldMap = make(map[string]*model.Field)
+	var fieldLines = make(map[string]int)
 	var lengthField *model.Field
 	var matchFields = make(map[string][]model.MatchPair)
 	for _, fctx := range ctx.AllFieldDefinitionWithAttribute() {
@@ -168,6 +169,7 @@ func (v *PacketDslVisitorImpl) VisitPacketDefinition(ctx *gen.PacketDefinitionCo
 			}
 			fields = append(fields, fld)
 			fieldMap[fld.Name] = fld
+			fieldLines[fld.Name] = fctx.GetStart().GetLine()
 
 			if mf, ok := fld.Attr.(*model.MatchFieldAttribute); ok {
 				matchFields[mf.MatchKeyField.Name] = mf.MatchPairs
@@ -203,7 +205,17 @@ func (v *PacketDslVisitorImpl) VisitPacketDefinition(ctx *gen.PacketDefinitionCo
 				TragetField: target,
 			}
 		case *model.MatchFieldAttribute:
-			c.MatchKeyField = fieldMap[c.MatchKeyField.Name]
+			keyField, exists := fieldMap[c.MatchKeyField.Name]
+			if !exists {
+				v.BinModel.AddSyntaxError(&model.SyntaxError{
+					Line:            fieldLines[f.Name],
+					Column:          f.Column,
+					Msg:             "Unknown match key field " + c.MatchKeyField.Name + " for match field " + f.Name,
+					OffendingSymbol: nil,
+				})
+				continue
+			}
+			c.MatchKeyField = keyField
 
 		}
 	}
